@@ -264,7 +264,16 @@ func (d *duplexHTTPCall) SetValidateResponse(validate func(*http.Response) *Erro
 }
 
 func (d *duplexHTTPCall) BlockUntilResponseReady() {
-	<-d.responseReady
+	select {
+	case <-d.responseReady:
+	case <-d.ctx.Done():
+		// Nobody else watches the context before the request has been made (a
+		// bidi Receive that started before the first Send would wait for a
+		// sender that may have given up): making the request now fails at once
+		// and releases everybody.
+		d.ensureRequestMade()
+		<-d.responseReady
+	}
 }
 
 func (d *duplexHTTPCall) ensureRequestMade() {
